@@ -300,7 +300,12 @@ func c16Worker(args []string) int {
 		{
 			csrc := []byte("package p\n\nimport foo \"a.b/bar\"\n\nvar _ = foo.X\n")
 			cfirst := ""
-			for k := 0; k < 60; k++ {
+			for k := 0; k < 120; k++ {
+				if k == 60 {
+					// ... also next to a blank and a dot-free renamed import (entries without a name of their own)
+					csrc = []byte("package p\n\nimport (\n\t_ \"a.a/anon\"\n\tfoo \"a.b/bar\"\n\t_ \"z.z/anon\"\n)\n\nvar _ = foo.X\n")
+					cfirst = ""
+				}
 				f, err := decorator.NewDecoratorWithImports(token.NewFileSet(), "main", goast.WithResolver(guess.New())).Parse(csrc)
 				if err != nil {
 					fmt.Println("DIFF repeat-collision: error", err)
